@@ -329,6 +329,15 @@ func cmdShrink(args []string) int {
 		fmt.Fprintf(os.Stderr, "note: violation re-executed with class %s instead of %s; reporting the re-executed one\n", r0.Viol.Class, rec.Violation.Class)
 		rec.Violation = r0.Viol
 	}
+	// Resource-class violations (a call that does not return, or allocates gigabytes) leave an
+	// abandoned goroutine behind that keeps eating memory: every further execution in this process
+	// risks the OOM killer. They are reported unminimised; the fresh-process replay confirms them.
+	if rec.Violation.Class == "timeout" || rec.Violation.Class == "alloc-blowup" || rec.Violation.Class == "non-termination" {
+		rf := &ReplayFile{Version: 1, Property: c.ID, World: c.World, Tier: *tier, Seed: rec.Seed, Index: rec.Index,
+			BatchSeed: *batch, Choices: r0.Src.Trace(), Blobs: rec.Blobs, Violation: r0.Viol, EventLog: r0.EventLog(),
+			EventHash: r0.Fingerprint(), Original: len(rec.Trace), ShrinkRun: 0}
+		return writeJSON(*out, rf)
+	}
 	// (2) shrink
 	best, execs := Shrink(c, *tier, rec.Index, rec.Seed, rec.Trace, rec.Violation, kf, *maxExecs, *maxWall)
 	// (3) re-record the minimised trace so blobs, event log and hash belong to it. If the
@@ -390,6 +399,13 @@ func cmdReplay(args []string) int {
 	}
 	fmt.Printf("replay: %s\n", r.Viol)
 	if r.Viol.Class != rf.Violation.Class {
+		// "did not return within the bound" and "allocated beyond the bound" are two readings of one
+		// resource blow-up; which bound trips first depends on the machine's load
+		res := map[string]bool{"timeout": true, "alloc-blowup": true}
+		if res[r.Viol.Class] && res[rf.Violation.Class] {
+			fmt.Printf("replay: reproduced as %s (recorded as %s: same resource blow-up, other bound tripped first)\n", r.Viol.Class, rf.Violation.Class)
+			return 0
+		}
 		fmt.Printf("replay: class differs (expected %s)\n", rf.Violation.Class)
 		return 3
 	}
